@@ -37,7 +37,7 @@ func travSeq(lp *LPath) []string {
 }
 
 var (
-	reOrd   = regexp.MustCompile(`@\d+`)
+	reOrd   = regexp.MustCompile(`@\d+|~\d+`)
 	reIdx0  = regexp.MustCompile(`\[const:0\]`)
 	reIdxP  = regexp.MustCompile(`\[\(phi:[^\]]*?\+const:1\)\]`)
 	rePhi   = regexp.MustCompile(`phi:t\d+@[A-Za-z0-9_$]+`)
